@@ -44,6 +44,11 @@ def confusable_atoms(alpha, n=None):
         ("cmp", "fields", ("v",), "<", 1),
         ("cmp", "fields", ("v",), "<=", 1),
         ("test", "fields", ("v",), "is_pos", ()),
+        ("cmp", "tags", (("map", "rekey"), "z"), "==", x),     # map first, then a key
+        ("cmp", "fields", ("v",), "==", -1),                    # hash(-1) == hash(-2) in CPython
+        ("cmp", "fields", ("v",), "==", -2),
+        ("cmp", "fields", ("w",), "==", 0),                     # hash(0) == hash(2**61 - 1)
+        ("cmp", "fields", ("w",), "==", 2**61 - 1),
         # --- beyond the quick slice
         ("cmp", "fields", ("w",), "==", 1),
         ("cmp", "tags", ("a",), "==", None),
@@ -100,7 +105,7 @@ class C17(univ.UnivCheck):
     def __init__(self, tier, seed):
         super().__init__(tier, seed)
         self.alpha = alphabet.Alphabet(seed)
-        atoms = confusable_atoms(self.alpha, 24 if tier == "quick" else None)
+        atoms = confusable_atoms(self.alpha, 29 if tier == "quick" else None)
         reps = [atoms[0], atoms[1], atoms[2], atoms[3]]
         self.fams = [("depth1-all-atoms", c09.step_asts(atoms))]
         if tier != "quick":
@@ -108,7 +113,7 @@ class C17(univ.UnivCheck):
         else:
             self.fams.append(("depth2-2reps", c09.step_asts(c09.step_asts(reps[1:3]))))
         # commutativity operands: depth<=1 terms over a slice of the atoms
-        self.comm_terms = c09.step_asts(atoms[: 12 if tier == "quick" else 24])
+        self.comm_terms = c09.step_asts(atoms[: 12 if tier == "quick" else 24] + atoms[24:29])
         self.U = c09.point_universe(self.alpha)
         self.rows = []  # (family index | -1 for commutativity, row)
         for fi, (_, terms) in enumerate(self.fams):
